@@ -169,8 +169,8 @@ def gen_cases(tier, rng):
     c1 = b'<p>price \x80 quoted \x93text\x94 dash \x96 caf\xe9</p><a href="/x">l\x85</a>'
     for differ in sc.REGISTERED:
         for cs in ('latin1', 'ISO_8859-1', 'l1', 'cp819', 'iso-ir-100', 'IBM819', 'latin_1', 'iso-8859-1', 'windows-1252', 'cp1252', 'iso8859-15', 'latin9', 'ascii', 'us-ascii'):
-            for media in ('text/html', 'text/plain'):
-                if tier == 'quick' and rng.random() > 0.5 and cs not in ('latin1', 'ISO_8859-1'):
+            for media in ('text/html', 'text/plain', 'application/xhtml+xml', 'text/xhtml', 'TEXT/HTML', 'application/xml'):
+                if tier == 'quick' and rng.random() > 0.3 and cs not in ('latin1', 'iso-8859-1'):
                     continue
                 up = {'http://site.test/a': sc.ok_up(c1, '%s; charset=%s' % (media, cs)), 'https://site.test/b': sc.ok_up(b'<p>plain</p>', 'text/html; charset=utf-8')}
                 cases.append({'differ': differ, 'raw_query': [('a', 'http://site.test/a'), ('b', 'https://site.test/b'), ('ignore_decoding_errors', 'true'), ('content_type_options', 'ignore')],
